@@ -599,6 +599,36 @@ def retype_sibling(rng, obj):
     return out
 
 
+def ambiguous_names(rng, cd):
+    """Names whose '_'-joins coincide although the parts differ:  (a, b_c) / (a_b, c)  as operand pairs of two gates,
+    or  gate u1 reading u2_y  next to  gate u1_u2 reading y.  Returns (cdict, tag) - tag None when not applicable."""
+    preds = cd_preds(cd)
+    tps = cd_types(cd)
+    wide = [n for n, t, _ in cd["nodes"] if t in GATESN and len(preds[n]) >= 2]
+    if len(wide) < 2:
+        return cd, None
+    g, h = rng.sample(wide, 2)
+    m = {}
+    try:
+        if rng.random() < 0.5:
+            fg = [x for x in preds[g] if "." not in x]
+            fh = [x for x in preds[h] if "." not in x and x not in fg[:2]]
+            if len(fg) < 2 or len(fh) < 2:
+                return cd, None
+            m = {fg[0]: "a", fg[1]: "b_c", fh[0]: "a_b", fh[1]: "c"}
+            tag = "operand_pairs"
+        else:
+            pg = [x for x in preds[g] if "." not in x and x not in (g, h)]
+            ph = [x for x in preds[h] if "." not in x and x not in (g, h) and x not in pg[:1]]
+            if not pg or not ph:
+                return cd, None
+            m = {g: "u1", pg[0]: "u2_y", h: "u1_u2", ph[0]: "y"}
+            tag = "gate_and_operand"
+        return cd_rename(cd, m), tag
+    except ValueError:
+        return cd, None
+
+
 def add_shared_parity(rng, cd, n_gates=2):
     """Append wide parity gates (3-5 inputs) that share at least two operands with each other."""
     cd = {"name": cd["name"], "nodes": [list(x) for x in cd["nodes"]], "edges": [list(e) for e in cd["edges"]], "bbs": dict(cd["bbs"])}
